@@ -56,7 +56,19 @@ func genC08(d *Draw) Case {
 	defs.Procs = []*Graph{g}
 	g.addNode(&Node{ID: "Start", Kind: "start"})
 	t1 := g.addNode(&Node{ID: "T1", Kind: "task", TaskKind: taskTags[d.N(len(taskTags))], Results: []string{"r_T1", "ok_T1"}, DataOut: []string{"do_T1"}})
-	g.connect(defs, "Start", "T1", nil, -1)
+	bare := d.N(3)
+	if bare > 0 {
+		// a task that declares no results at all (no extension elements, or a task definition only): it is
+		// answered with results like every other task and nothing of that may be stored
+		t0 := g.addNode(&Node{ID: "T0", Kind: "task", TaskKind: taskTags[d.N(len(taskTags))]})
+		if bare == 2 {
+			t0.Retries = 1
+		}
+		g.connect(defs, "Start", "T0", nil, -1)
+		g.connect(defs, "T0", "T1", nil, -1)
+	} else {
+		g.connect(defs, "Start", "T1", nil, -1)
+	}
 	g.addNode(&Node{ID: "X", Kind: "xor"})
 	g.connect(defs, "T1", "X", nil, -1)
 	t2 := g.addNode(&Node{ID: "T2", Kind: "task", Results: []string{"r_T2"}, Props: []string{"r_T1", "u_T1", "ok_T1"}})
